@@ -239,3 +239,39 @@ impl Pick for Xo {
         (self.next_u64() >> 11) as f64 / (1u64 << 53) as f64
     }
 }
+
+/// A handle to a [`ChoiceRng`] shared between the explorer and the framework that owns the RNG.
+#[derive(Clone, Debug, Default)]
+pub struct SharedChoice(pub std::rc::Rc<std::cell::RefCell<ChoiceRng>>);
+
+impl SharedChoice {
+    pub fn set(&self, script: &[u32]) {
+        let mut c = self.0.borrow_mut();
+        c.script.clear();
+        c.script.extend_from_slice(script);
+        c.pos = 0;
+        c.overrun = 0;
+    }
+    pub fn overrun(&self) -> usize {
+        self.0.borrow().overrun
+    }
+    pub fn used(&self) -> usize {
+        self.0.borrow().pos
+    }
+}
+
+impl RngCore for SharedChoice {
+    fn next_u32(&mut self) -> u32 {
+        self.0.borrow_mut().next_u32()
+    }
+    fn next_u64(&mut self) -> u64 {
+        self.0.borrow_mut().next_u64()
+    }
+    fn fill_bytes(&mut self, dest: &mut [u8]) {
+        self.0.borrow_mut().fill_bytes(dest)
+    }
+    fn try_fill_bytes(&mut self, dest: &mut [u8]) -> Result<(), Error> {
+        self.fill_bytes(dest);
+        Ok(())
+    }
+}
